@@ -177,6 +177,14 @@ def run_bad_discovery(R, level, kind):
         msg_id = m["msg_id"]
         if kind == "wrong-msgid":
             msg_id += 1
+        elif kind.startswith("msgid+"):
+            msg_id += int(kind[6:])
+        elif kind.startswith("msgid-"):
+            msg_id -= int(kind[6:])
+        elif kind == "msgid-negated":
+            msg_id = -msg_id
+        elif kind == "msgid-xor-sign":
+            msg_id ^= 0x80000000
         elif kind.startswith("msgid="):
             if int(kind[6:]) == msg_id:
                 msg_id += 1
@@ -236,7 +244,9 @@ def run(R):
         run_history(R, level, steps, ctx, rng.choice((0, 1, 7, 65535)))
     if R.shard == 0:
         for level in levels:
-            for kind in ("wrong-msgid", "no-bindings", "msgid=0", "msgid=1", "msgid=-1", "msgid=2147483647", "msgid=2147483646", "msgid=-2147483648"):
+            for kind in ("wrong-msgid", "no-bindings", "msgid=0", "msgid=1", "msgid=-1", "msgid=2147483647", "msgid=2147483646", "msgid=-2147483648",
+                         "msgid+4294967296", "msgid-4294967296", "msgid+8589934592", "msgid+2147483648", "msgid-2147483648", "msgid+65536", "msgid+256",
+                         "msgid+18446744073709551616", "msgid-negated", "msgid-xor-sign"):
                 run_bad_discovery(R, level, kind)
             # the named histories of the design
             run_history(R, level, [("op", "get"), ("advance", 151), ("op", "get")], b"", 1)
